@@ -2,7 +2,7 @@
 # Offline setup: parse every specification with SANY; nothing here depends on /repo.
 set -e
 cd "$(dirname "$0")"
-for m in SVecOracle SVec SVecMem SVecImpl SVecMC SVecOrder Growth ShapeInd Trace ImplTrace Facts Equiv CxEquiv; do
+for m in SVecOracle ShapeRel SVec SVecMem SVecImpl SVecMC SVecOrder Growth ShapeInd Trace ImplTrace Facts Equiv CxEquiv; do
   ( cd spec && tla-sany $m.tla > /tmp/sany_$m.log 2>&1 ) || { cat /tmp/sany_$m.log; echo "setup: SANY failed on $m"; exit 1; }
   rm -f /tmp/sany_$m.log
 done
